@@ -25,8 +25,14 @@ pub enum Term {
     ForEach,
     /// collect via by_ref().rev() then the rest forwards
     RevThenFwd,
+    /// skip(1).step_by(2), collected (adaptors built on nth)
+    SkipStep,
+    /// rev().skip(1), collected (adaptors built on nth_back)
+    RevSkip,
+    /// by_ref().find(|_| false) visits everything and leaves an exhausted iterator
+    FindNone,
 }
-pub const TERMS: [Term; 6] = [Term::Count, Term::Last, Term::Fold, Term::Rfold, Term::ForEach, Term::RevThenFwd];
+pub const TERMS: [Term; 9] = [Term::Count, Term::Last, Term::Fold, Term::Rfold, Term::ForEach, Term::RevThenFwd, Term::SkipStep, Term::RevSkip, Term::FindNone];
 
 pub fn enc_seq(seq: &[Call], term: Term) -> String {
     let mut s = String::new();
@@ -203,6 +209,37 @@ where
                 cs.fail("iter:rev-then-forward", format!("rev().next() then forwards visited {:x?}, expected {:x?}", got, exp));
             }
             yielded.extend(got);
+        }
+        Term::SkipStep => {
+            let got: Vec<Tok> = it.skip(1).step_by(2).map(&mut tok).collect();
+            let exp: Vec<Tok> = ideal.iter().skip(1).step_by(2).copied().collect();
+            if got != exp {
+                cs.fail("iter:skip-step_by", format!("skip(1).step_by(2) visited {:x?}, expected {:x?}", got, exp));
+            }
+            yielded.extend(got);
+        }
+        Term::RevSkip => {
+            let got: Vec<Tok> = it.rev().skip(1).map(&mut tok).collect();
+            let exp: Vec<Tok> = ideal.iter().rev().skip(1).copied().collect();
+            if got != exp {
+                cs.fail("iter:rev-skip", format!("rev().skip(1) visited {:x?}, expected {:x?}", got, exp));
+            }
+            yielded.extend(got);
+        }
+        Term::FindNone => {
+            let mut seen: Vec<Tok> = Vec::new();
+            let found = it.by_ref().map(&mut tok).find(|t| {
+                seen.push(*t);
+                false
+            });
+            let exp: Vec<Tok> = ideal.iter().copied().collect();
+            if found.is_some() || seen != exp {
+                cs.fail("iter:find", format!("find(|_| false) visited {:x?}, expected {:x?}", seen, exp));
+            }
+            if it.len() != 0 || it.next().is_some() {
+                cs.fail("iter:find", "the iterator is not exhausted after find(|_| false)".into());
+            }
+            yielded.extend(seen);
         }
     }
     yielded
